@@ -1465,6 +1465,11 @@ SEQUENCE_encode_uper(const asn_TYPE_descriptor_t *td,
 			continue;
 
         ASN_DEBUG("Encoding %s->%s:%s", td->name, elm->name, elm->type->name);
+        if(!elm->type->op->uper_encoder) {
+            ASN_DEBUG("PER encoder is not defined for type %s",
+                      elm->type->name);
+            ASN__ENCODE_FAILED;
+        }
         er = elm->type->op->uper_encoder(
             elm->type, elm->encoding_constraints.per_constraints, *memb_ptr2,
             po);
